@@ -195,3 +195,23 @@ Proof. intros Hn. destruct (any_degenerate n k X) eqn:G.
     assert (Hc : code_b n k b X Y) by (split; [exact Lb|]; rewrite G; exists w; exact Hs).
     exists b. split; [exact Hc|]. intros b' Hc'.
     exact (proj2 (proj2 (cv_code_b_general n k b (fun _ => 0) X Y Hn Hc) G) b' Hc'). Qed.
+
+(* audit5a B10, in the auditor's form: the lstsq branch of code_b is INHABITED for every sample on which the guard does not fire
+   (corollary of lstsq_spec_exists: `not degenerate` gives a positive sample variance) *)
+Corollary lstsq_answer_exists_nondegenerate n X Y k : (0 < n)%nat -> any_degenerate n k X = false ->
+  exists b w, length b = k /\ lstsq_spec n b w X Y.
+Proof. intros Hn G. apply (lstsq_spec_exists n Hn X Y k).
+  intros j Hj. apply (not_degenerate_pos n (X j) Hn). exact (any_degenerate_false n k X G j Hj). Qed.
+
+(* UNCONDITIONAL form of cv_code_b_general (its hypothesis `code_b n k b X Y` discharged by code_b_exists_unique): for every
+   sample, every k and all centring prices there IS a coefficient vector meeting the code's specification, every such vector gives
+   var(adj) <= var Y, and -- guard not firing -- the least variance over all b', p'.  About the EXACT b of the specification (over Q);
+   what numpy's float lstsq returns on nearly collinear controls is another matter (see THEOREM_NOTES, LEVEL_TEXT). *)
+Theorem cv_code_b_unconditional n k X Y : (0 < n)%nat ->
+  exists b, code_b n k b X Y
+    /\ (forall p, Cn n (cv_adj b p X Y) (cv_adj b p X Y) <= Cn n Y Y)
+    /\ (any_degenerate n k X = false ->
+        forall p b' p', length b' = k -> Cn n (cv_adj b p X Y) (cv_adj b p X Y) <= Cn n (cv_adj b' p' X Y) (cv_adj b' p' X Y)).
+Proof. intros Hn. destruct (code_b_exists_unique n k X Y Hn) as [b [Hc _]]. exists b. split; [exact Hc|]. split.
+  - intros p. exact (proj1 (cv_code_b_general n k b p X Y Hn Hc)).
+  - intros G p b' p' Hl. exact (proj1 (proj2 (cv_code_b_general n k b p X Y Hn Hc) G) b' p' Hl). Qed.
